@@ -73,7 +73,11 @@ def main():
             sh('ctest --test-dir %s/_b -j8 --timeout 900' % WT); mutl = norm_log(WT + '/_b/Testing/Temporary/LastTest.log')
             res['suite_same_as_unmodified'] = (mutl == base)
             if mutl != base: res['suite_diff'] = [l for l in mutl if l not in base][:10] + ['--'] + [l for l in base if l not in mutl][:10]
-        res['confirmed'] = bool(rc0 == 0 and rc1 != 0 and res['builds_with_change'] and (not suite or res['suite_same_as_unmodified']))
+        prev = {}
+        try: prev = json.load(open(os.path.join(VERIF, 'seeded', sid, 'meta.json')))
+        except Exception: pass
+        if not suite and prev.get('confirmed_by_us'): res['suite_same_as_unmodified'] = True   # confirmed in an earlier run of this script
+        res['confirmed'] = bool(rc0 == 0 and rc1 != 0 and res['builds_with_change'] and res.get('suite_same_as_unmodified'))
         res['checks'] = {}
         for c in checks:
             t0 = time.time()
